@@ -46,6 +46,8 @@ pub const CONTEXTS: &[(&str, &str)] = &[
     ("html", "body"), ("html", "frameset"), ("html", "caption"), ("html", "colgroup"), ("html", "tbody"), ("html", "option"), ("html", "p"),
     ("svg", "svg"), ("svg", "foreignObject"), ("svg", "title"), ("svg", "desc"), ("mathml", "math"), ("mathml", "mi"), ("mathml", "annotation-xml"),
     ("html", "xmp"), ("html", "iframe"), ("html", "noframes"), ("html", "form"), ("html", "button"), ("html", "li"),
+    ("html", "th"), ("html", "thead"), ("html", "tfoot"), ("html", "col"), ("html", "optgroup"), ("html", "noembed"), ("html", "pre"),
+    ("mathml", "mtext"), ("svg", "g"), ("html", "a"), ("html", "applet"), ("html", "dd"),
 ];
 
 pub fn base_case(text: &str) -> Value {
